@@ -487,6 +487,28 @@ func reducedPaths(c *Ctx, fn *ssa.Function) ([]redPath, error) {
 			cnt := "?"
 			if iff, ok := b.Instrs[len(b.Instrs)-1].(*ssa.If); ok {
 				cnt = w.term(iff.Cond)
+				// a loop counting down from N to 0 runs as often as one counting up from 0 to N
+				if bo, isBo := iff.Cond.(*ssa.BinOp); isBo && (bo.Op == token.GTR || bo.Op == token.NEQ) && isZeroConst(bo.Y) {
+					if ph, isPh := bo.X.(*ssa.Phi); isPh && ph.Block() == b {
+						var init ssa.Value
+						down := true
+						for i, p := range b.Preds {
+							if b.Dominates(p) {
+								sub, isSub := ph.Edges[i].(*ssa.BinOp)
+								if !isSub || sub.Op != token.SUB || sub.X != ssa.Value(ph) {
+									down = false
+								} else if k, isK := constInt(sub.Y); !isK || k.Int64() != 1 {
+									down = false
+								}
+							} else {
+								init = ph.Edges[i]
+							}
+						}
+						if down && init != nil {
+							cnt = "(i < " + w.term(init) + ")"
+						}
+					}
+				}
 			}
 			st.events = append(append([]string{}, st.events...), "Loop["+cnt+"]{"+strings.Join(body, "; ")+"}")
 			for _, s := range b.Succs {
